@@ -233,8 +233,12 @@ def run_lossmin(case, qt, empi, detailed=True):
             max_iteration_optimization=5,
             max_iteration_proj_physical=200,
         )
+        import contextlib
+        import io
+
         try:
-            LossMinimizationEstimator().calc_estimate(qt, empi, loss, loss_opt, algo, prior_opt)
+            with contextlib.redirect_stdout(io.StringIO()):  # its iteration-cap warnings are not those of the run under test
+                LossMinimizationEstimator().calc_estimate(qt, empi, loss, loss_opt, algo, prior_opt)
         except ValueError:
             pass
     res = LossMinimizationEstimator().calc_estimate(
